@@ -241,7 +241,7 @@ def classification_probe(chk):
         for e in EXT:
             for i in INT:
                 for b in BOOT:
-                    for seq in (7, 0, 0x7FFFFFFF, 0xFFFFFFFD, 0xFFFFFFFE):
+                    for seq in (7, 0, 255, 0xFFFF, 0x00FFFFFF, 0xFF0000FF, 0x7FFFFFFF, 0xFFFFFFFD, 0xFFFFFFFE):
                         w = [kind, seq, ring.SZ, ring.CNT if kind == 0 else g.cap, e, i, b]
                         solo.append("4 %d %d|%s" % (g.slot, g.blk, ";".join(["raw %x %s" % (g.slot, enc(w).hex()), "bl", "fb", "recover", "drop", "hdrs"])))
                         smeta.append(w)
@@ -262,7 +262,7 @@ def classification_probe(chk):
         elif obs != ref[tuple(w[:1] + w[4:])]:
             chk.failures.append(core.Failure("a lone %s header (kind %d): with sequence number %#x the answers / remediation are %s, with sequence number 7 they are %s - the class depends on the status triple alone" % (cls, w[0], w[1], obs, ref[tuple(w[:1] + w[4:])]), "session", "matrix", c, raw[:1500], key="c11-class"))
     cases = cases + solo; impl = impl + simpl
-    chk.note_cases("classification-probe", cases, cases, sample_n=1, dist={"triples": 18, "kinds": 2, "sequence_numbers": "0, 7, 199 beside a pair numbered 200/201; 7 beside a pair numbered 2^32-3 / 2^32-2; 0, 7, 2^31-1, 2^32-3, 2^32-2 alone", "probe_slots": 2})
+    chk.note_cases("classification-probe", cases, cases, sample_n=1, dist={"triples": 18, "kinds": 2, "sequence_numbers": "0, 7, 199 beside a pair numbered 200/201; 7 beside a pair numbered 2^32-3 / 2^32-2; 0, 7, 255, 2^16-1, 2^24-1, 0xFF0000FF, 2^31-1, 2^32-3, 2^32-2 alone", "probe_slots": 2})
     try:
         fvm = core.build_fvm()
         model = core.run_stream(fvm, "session", cases)
